@@ -262,7 +262,7 @@ def payload_sweep(m):
         smp = {"data": "0102030405060708", "format": "int8", "channels": "mono", "rate": 22050, "loop_start": 1, "loop_len": 2, "loop_type": "forward", "loop_sustain": True, "volume": 33, "finetune": -5, "panning": 7, "relative_note": 3, "reserved2": 0, "start_pos": 1, "name": "6162"}
         out += [["s_sample_new", 127, smp], ["s_field", "vibrato_depth", 9]]
         if present:
-            out += [["s_sample_field", present[0], "data", "00" * 10], ["s_sample_field", present[0], "format", "int16"], ["s_sample_field", present[0], "volume", 1], ["s_sample_del", present[-1]]]
+            out += [["s_sample_field", present[0], "data", "00" * 10], ["s_sample_field", present[0], "format", "int16"], ["s_sample_field", present[0], "volume", 1], ["s_sample_del", present[-1]], ["s_sample_alias", 100, present[0]], ["s_sample_alias", present[-1] + 1, present[-1]]]
     elif t == "MetaModule":
         out += [["m_count", 0], ["m_count", 96], ["m_map", 95, 0xFFF0, 7], ["m_label", 0, "cutoff"]] if m.user_defined_controllers else [["m_count", 3], ["m_map", 0, 0xFFF0, 1]]
         out += [["m_project_whole"]]
